@@ -11,6 +11,7 @@ def parseVal : Sexp → Option Val
   | .list [.atom "obj", i] => i.asNat?.map Val.obj
   | .list (.atom "objs" :: xs) => (xs.mapM Sexp.asNat?).map Val.objs
   | .list [.atom "none"] => some Val.none
+  | .list (.atom "set" :: xs) => (xs.mapM Sexp.asInt?).map Val.set
   | _ => none
 
 def parseAttrName : Sexp → Option AttrName
@@ -81,6 +82,7 @@ def showVal : Val → String
   | .obj i => s!"o{i}"
   | .objs xs => "[" ++ ",".intercalate (xs.map fun i => s!"o{i}") ++ "]"
   | .none => "None"
+  | .set xs => "{" ++ ",".intercalate (xs.map toString) ++ "}"
 
 def showRow (r : List Val) : String := "(" ++ " ".intercalate (r.map showVal) ++ ")"
 
